@@ -411,9 +411,13 @@ impl DIDUrl {
       return Err(Error::InvalidPath);
     }
 
-    // Parse DID Url.
-    let base_did_url: BaseDIDUrl = BaseDIDUrl::parse(self.to_string())?.join(segment)?;
-    Self::from_base_did_url(base_did_url)
+    // Build the base from the components instead of re-parsing the string form: the underlying
+    // parser mishandles percent-encoded triples (see `CoreDID::parse`).
+    let mut base: BaseDIDUrl = BaseDIDUrl::from(self.did.clone());
+    base.set_path(self.url.path().unwrap_or_default());
+    base.set_query(self.url.query());
+    base.set_fragment(self.url.fragment());
+    Self::from_base_did_url(base.join(segment)?)
   }
 
   /// Maps a [`DIDUrl`] by applying a function to the [`CoreDID`] part of the [`DIDUrl`], the [`RelativeDIDUrl`]
